@@ -7,6 +7,7 @@
 //!   - an id with a wrong index, or computed from a different parent set, is rejected          (C13)
 //!   - the text stored under id.key() is fetched back equal; stored under an id with another
 //!     digest it is rejected                                                                  (C10)
+use super::FailureClasses;
 use crate::Report;
 use melda::adapter::Adapter;
 use melda::melda::{Delta, DeltaId, Melda};
@@ -166,7 +167,7 @@ fn shape_seqs(max: usize) -> Vec<Vec<String>> {
 }
 
 pub fn run(thorough: bool, _seed: u64) -> Report {
-    let max = if thorough { 3 } else { 2 };
+    let max = if thorough { 4 } else { 3 };
     let mut rep = Report::new(
         "delta_roundtrip",
         &format!(
@@ -175,6 +176,7 @@ pub fn run(thorough: bool, _seed: u64) -> Report {
         ),
         "exhaustive product; non-trivial = at least one change record; origin blocks containing an update-shaped record get case ids starting with origin-update:",
     );
+    let mut classes = FailureClasses::new(2);
     for shapes in shape_seqs(max) {
         for (pi, parents) in parent_sets().iter().enumerate() {
             for (ii, info) in infos().iter().enumerate() {
@@ -183,13 +185,15 @@ pub fn run(thorough: bool, _seed: u64) -> Report {
                     rep.case(&key, !shapes.is_empty());
                     if let Err(w) = check(&shapes, parents, info, pack) {
                         let origin_update = parents.is_empty() && shapes.iter().any(|s| s != "create");
+                        let class = if origin_update { "origin-update".to_string() } else { format!("other/{}", w.chars().take(24).collect::<String>()) };
                         let id = format!("{}{}", if origin_update { "origin-update:" } else { "other:" }, key);
-                        rep.fail(&id, json!({"shapes": shapes, "parents": parents, "info": info, "pack": pack}), &w);
+                        classes.fail(&mut rep, &class, &id, json!({"shapes": shapes, "parents": parents, "info": info, "pack": pack}), &w);
                     }
                 }
             }
         }
     }
+    classes.summary("delta_roundtrip");
     rep
 }
 
